@@ -120,8 +120,11 @@ FContains(f, p, m8) == FindGrid(f, p, m8) # 0
 FAt(f, p, m8) == LET i == FindGrid(f, p, m8) IN IF i = 0 THEN Miss ELSE AtSub(f, i, p, m8)
 
 \* values of two rationals agree
+\* (cross-multiplied by the denominators divided by their common factor: TLC's integers are 32 bit)
 SameVal(a, b) == /\ a.ok /\ b.ok /\ Len(a.num) = Len(b.num)
-                 /\ \A k \in 1..Len(a.num) : a.num[k] * b.den = b.num[k] * a.den
+                 /\ LET m == IF a.den <= b.den THEN a.den ELSE b.den
+                         d == IF a.den % m = 0 /\ b.den % m = 0 THEN m ELSE 1
+                     IN \A k \in 1..Len(a.num) : a.num[k] * (b.den \div d) = b.num[k] * (a.den \div d)
 
 \* Where the documentation does not settle which sub-grid owns a point:
 \* (a) the northern / eastern border of a sub-grid ("upper border belongs to
@@ -143,6 +146,52 @@ Ambiguous(f, p, m8) ==
           /\ Contains(f[j], p, 0) /\ (p.x = East(f[j]) \/ p.y = f[j].n)
           /\ \E k \in Roots(f) \ {j} : Contains(f[k], p, m8)
 
+\* With overlapping siblings (which the NTv2 specification forbids, and on which the statement - "the
+\* deepest sub-grid containing the point" - does not choose) every END of a chain of sub-grids
+\* containing the point is admissible: a sub-grid that contains the point, whose ancestors all contain
+\* it, and none of whose children contains it.  Never an inner link of such a chain (a parent is not
+\* "deepest" while a child of it contains the point).
+RECURSIVE ChainOK(_, _, _)
+ChainOK(f, i, p) == /\ Contains(f[i], p, 0)
+                    /\ (f[i].parent = "NONE" \/ ChainOK(f, IndexOf(f, f[i].parent), p))
+ChainEnds(f, p) == {i \in 1..Len(f) : ChainOK(f, i, p) /\ \A j \in Children(f, i) : ~Contains(f[j], p, 0)}
+\* a point in two siblings, strictly inside every sub-grid border (no border rule interferes)
+OnUpperBorder(f, p) == \E j \in 1..Len(f) : Contains(f[j], p, 0) /\ (p.x = East(f[j]) \/ p.y = f[j].n)
+InSiblingOverlap(f, p) ==
+    /\ \E i \in 1..Len(f) : Cardinality({j \in Children(f, i) : Contains(f[j], p, 0)}) > 1
+    /\ Cardinality({i \in Roots(f) : Contains(f[i], p, 0)}) = 1
+    /\ ~OnUpperBorder(f, p)
+
+\* ---- spellings of a header ---------------------------------------------------
+\* A header names the extent by four bounds.  Written in ascending order ("asc") there is one reading.
+\* With the bounds of an axis exchanged ("ns": the slot of the southern bound holds the larger latitude;
+\* "ew"; "nsew") the header is either MALFORMED (the reader refuses it) or it spells the same extent, and
+\* then the rows / columns of the file are either still counted from the north / west ("swap": the
+\* bounds are an unordered pair) or from the bound written in the slot of the northern / western bound
+\* towards the other one ("scan").  A grid record holds the nodes in the order of the FILE (first row
+\* of the file = row 0); Under(g, rd) is the grid the file means under reading rd.  Whatever the
+\* reading: the decoded grid reproduces its node values at its nodes (NodeInv / SpellingInv).
+Spellings == {"asc", "ns", "ew", "nsew"}
+HasNS(sp) == sp \in {"ns", "nsew"}
+HasEW(sp) == sp \in {"ew", "nsew"}
+Readings(sp) == {rd \in {"swap", "scan"} \X {"swap", "scan"} :
+                    (rd[1] = "scan" => HasNS(sp)) /\ (rd[2] = "scan" => HasEW(sp))}
+FlipNS(g) == [g EXCEPT !.nodes = [r \in 1..g.rows |-> g.nodes[g.rows + 1 - r]]]
+FlipEW(g) == [g EXCEPT !.nodes = [r \in 1..g.rows |-> [c \in 1..g.cols |-> g.nodes[r][g.cols + 1 - c]]]]
+Under(g, rd) == LET a == IF rd[1] = "scan" THEN FlipNS(g) ELSE g IN IF rd[2] = "scan" THEN FlipEW(a) ELSE a
+ReadingSeq(sp) == SelectSeq(<< <<"swap", "swap">>, <<"scan", "swap">>, <<"swap", "scan">>, <<"scan", "scan">> >>,
+                            LAMBDA rd : rd \in Readings(sp))
+
+\* ---- the margin argument of a query ---------------------------------------------
+\* contains(p, margin) / at(p, margin) take the margin as a number of cells.  A query is total in it:
+\* a margin that is not a number admits no point (no order relation holds with NaN), a negative margin
+\* shrinks the extent (possibly to nothing), an infinite one admits every point.
+\* [k, m8]: k in "fin" (m8 eighths of a cell), "nan", "inf"
+MarginClasses == << [name |-> "0",    k |-> "fin", m8 |-> 0],  [name |-> "0.5",  k |-> "fin", m8 |-> 4],
+                    [name |-> "-0.5", k |-> "fin", m8 |-> -4], [name |-> "-2",   k |-> "fin", m8 |-> -16],
+                    [name |-> "NaN",  k |-> "nan", m8 |-> 0],  [name |-> "inf",  k |-> "inf", m8 |-> 0] >>
+ContainsM(g, p, m) == CASE m.k = "nan" -> FALSE [] m.k = "inf" -> TRUE [] OTHER -> Contains(g, p, m.m8)
+
 \* ---- several grids: first hit, then first within the margin, then null ----
 \* An entry of a `grids=` list: [k, fi, opt, present]: k = "grid" names file
 \* fi of the scenario's catalogue (opt: written with @, present: the context
@@ -160,6 +209,16 @@ IsBlocking(e) == e.k = "grid" /\ ~e.present /\ ~e.opt
 RefusedR1(list) == \E i \in 1..(FirstNull(list) - 1) : IsBlocking(list[i])
 RefusedR2(list) == \E i \in 1..Len(list) : IsBlocking(list[i])
 
+\* The documentation of `grids` (gridshift, deformation, deflection alike): grids "are considered
+\* optional if they are prefixed with @ and hence do [not] block instantiation of the operator if they
+\* are unavailable" - and nothing else: an optional grid that is missing is skipped.  The list that is
+\* left may be EMPTY (every grid optional and missing).  Then no grid contains any point: every point
+\* is "outside of the grid coverage", i.e. "stomped on with the NaN shoes and counted as errors",
+\* unless @null is given, in which case it is "passed through unchanged".  SelIdx / GridsAt below say
+\* exactly that for eff = <<>>; EmptyListClause states it on its own.
+AllOptionalMissing(list) == /\ \E i \in 1..Len(list) : list[i].k = "grid"
+                            /\ \A i \in 1..Len(list) : list[i].k = "grid" => (list[i].opt /\ ~list[i].present)
+
 \* index (into the effective list) of the grid that serves p; 0: none
 SelIdx(files, eff, p) ==
     LET H0 == {i \in 1..Len(eff) : FContains(files[eff[i].fi], p, 0)}
@@ -172,6 +231,20 @@ GridsAt(files, eff, null, p) ==
     IF i # 0 THEN [out |-> IF FContains(files[eff[i].fi], p, 0) THEN "grid0" ELSE "grid4",
                    i |-> i, val |-> FAt(files[eff[i].fi], p, 4)]
     ELSE [out |-> IF null THEN "null" ELSE "none", i |-> 0, val |-> Miss]
+
+EmptyListClause(files, list, p) ==
+    AllOptionalMissing(list) =>
+        /\ EffR1(list) = <<>> /\ EffR2(list) = <<>> /\ ~RefusedR1(list) /\ ~RefusedR2(list)
+        /\ GridsAt(files, <<>>, HasNull(list), p).out = (IF HasNull(list) THEN "null" ELSE "none")
+
+\* ---- operators and the dimensionality of their grids ----------------------------
+\* gridshift is documented for 1-D (heights) and 2-D grids ("3-D and time dependent transformations are
+\* implemented by the deformation operator"), deformation for 3-band velocity grids, deflection for a
+\* geoid model.  Given a grid of another dimensionality the documentation settles nothing: refusal or
+\* any numbers are admissible - but the call returns (totality).
+DocumentedOps(kind) == CASE kind = "geoid" -> {"gridshift", "deflection"} [] kind = "projected" -> {"gridshift"}
+                         [] kind = "datum" -> {"gridshift"} [] kind = "deformation" -> {"deformation"}
+CrossOps(kind) == {"gridshift", "deformation", "deflection"} \ DocumentedOps(kind)
 
 \* ---- conventions -----------------------------------------------------------
 \* What a selected value does to a coordinate tuple.  Bands are numbered as
